@@ -45,7 +45,11 @@ type RTEnd struct {
 	Ctrs        []*api.Container
 	// Chunks > 1: the state is sent in that many Synchronize messages (all but the last with
 	// More set); AbortAfter > 0: the runtime end drops the connection after that many chunks.
-	Chunks     int
+	Chunks int
+	// ChunkShape: 0 pods and containers spread evenly over the messages; 1 all pods in the first
+	// message (later ones carry containers only); 2 all containers in the first message; 3 as 0 with
+	// an additional empty message before the last one
+	ChunkShape int
 	AbortAfter int
 	ChunksSent int
 }
@@ -197,10 +201,38 @@ func (r *RTEnd) handshake() {
 	if nch < 1 {
 		nch = 1
 	}
+	type chunk struct {
+		pods []*api.PodSandbox
+		ctrs []*api.Container
+	}
+	var chunks []chunk
 	for k := 0; k < nch; k++ {
 		lo := func(n int) int { return n * k / nch }
 		hi := func(n int) int { return n * (k + 1) / nch }
-		req := &api.SynchronizeRequest{Pods: r.Pods[lo(len(r.Pods)):hi(len(r.Pods))], Containers: r.Ctrs[lo(len(r.Ctrs)):hi(len(r.Ctrs))], More: k < nch-1}
+		c := chunk{r.Pods[lo(len(r.Pods)):hi(len(r.Pods))], r.Ctrs[lo(len(r.Ctrs)):hi(len(r.Ctrs))]}
+		if nch > 1 {
+			switch r.ChunkShape {
+			case 1:
+				c.pods = nil
+				if k == 0 {
+					c.pods = r.Pods
+				}
+			case 2:
+				c.ctrs = nil
+				if k == 0 {
+					c.ctrs = r.Ctrs
+				}
+			case 3:
+				if k == nch-1 {
+					chunks = append(chunks, chunk{})
+				}
+			}
+		}
+		chunks = append(chunks, c)
+	}
+	nch = len(chunks)
+	for k := 0; k < nch; k++ {
+		req := &api.SynchronizeRequest{Pods: chunks[k].pods, Containers: chunks[k].ctrs, More: k < nch-1}
 		srpl, err = r.PC.Synchronize(ctx, req)
 		if err != nil {
 			break
